@@ -119,6 +119,31 @@ def check(run):
         add(op, w0 + b"\x00")
         bad = bytearray(w0); bad[96:104] = le(2**61, 8); add(op, bytes(bad))
         bad = bytearray(w0); bad[96 + 8 + 640:96 + 16 + 640] = le(2**64 - 1, 8); add(op, bytes(bad))
+    # ---- the partition satisfiable / unsatisfiable is the reference generator's: the specification's circuit relation
+    #      (Lean `CircuitSat`) must agree with rln.wasm accepting / failing an assert on the same assignments
+    from checks.c05 import reference
+    part = []
+    mids_lims = [(1, 100), (0, 1), (99, 100), (100, 100), (101, 100), (0, 0), (2**16 - 1, 2**16), (2**16, 2**16 + 1), (2**16, 2**17),
+                 (1, 70000), (7, 2**16 + 5), (0, 2**16), (0, 2**16 + 1), (5, P - 1), (P - 1, 5), (2**16 - 1, 2**17 - 1), (2**16 - 1, 2**17)]
+    for mid, lim in (mids_lims if not quick else mids_lims[:9]):
+        part.append(dict(identitySecret=[secret], userMessageLimit=[lim], messageId=[mid], pathElements=path, identityPathIndex=list(idx), x=[x], externalNullifier=[ext]))
+    for bad in (2, 255, P - 1):
+        i2 = list(idx); i2[7] = bad
+        part.append(dict(identitySecret=[secret], userMessageLimit=[100], messageId=[1], pathElements=path, identityPathIndex=i2, x=[x], externalNullifier=[ext]))
+    ref = reference(part)
+    sat_lines = []
+    for a in part:
+        ib = bytes(v if v < 256 else 255 for v in a["identityPathIndex"])
+        sat_lines.append(f"sat {hex(a['identitySecret'][0])} {hex(a['userMessageLimit'][0])} {hex(a['messageId'][0])} {','.join(hex(p) for p in a['pathElements'])} {hx(ib)} {hex(x)} {hex(ext)}")
+    lean_sat = core.run_lean("spec", sat_lines)
+    disagree = 0
+    for a, r, ls, line in zip(part, ref, lean_sat, sat_lines):
+        if any(v >= 256 for v in a["identityPathIndex"]):
+            ls = "false" if not r.startswith("ok") else ls      # a direction value that is not even a byte: outside the byte API, reference must reject
+        if (r.startswith("ok")) != (ls == "true"):
+            disagree += 1
+            run.broken_obligation("Protocol.CircuitSat vs rln.wasm", f"the specification's circuit relation says {ls} but the reference generator answers `{r[:40]}` on message_id={a['messageId'][0]}, limit={a['userMessageLimit'][0]}, directions={a['identityPathIndex'][:8]}…")
+    run.cov["circuit_relation_vs_reference_generator"] = {"assignments": len(part), "reference_accepts": sum(1 for r in ref if r.startswith("ok")), "disagreements": disagree}
     run.rules.append("proving requests over the full domain: message ids {0,1,limit-1,limit,limit+1,2^16-1,2^16,limit-2^16,…} x limits {0,1,2,100,2^16,2^16+1,70000,p-1}, positions {inside, cap-1, cap, 2^32, 2^63, 2^64-1}, every truncation class, declared lengths up to 2^64-1, witnesses with path/index lists of length 0/19/20/21, direction bytes 2/255, huge declared counts; each through generate_rln_proof / generate_rln_proof_with_witness / prove; the specification answers ok exactly when the circuit relation is satisfiable; distinct = distinct request")
     run.differential("prove-domain", seqs, canon=rlngen.canon_prove, classify=classify, shrink=False)
     # every message the prover returned must verify (the prover's own claim), outside the open shapes
